@@ -51,6 +51,9 @@ CHECKS = {
  'C19': ('exploration',
          "Held on the URLs explored: a catalogue of addresses inside/outside the denied networks rendered from their numeric value in every textual form (decimal, octal, hex, short, mixed radix, IPv6 spellings, IPv4-mapped IPv6, zone ids, case), fake-resolver names with single/multiple/mixed answers, schemes, userinfo, ports, parser-differential candidates, under default and operator-modified denied_cidrs / allowed_hosts; validate_url must refuse what the statement demands (ground truth by construction) and an audit-hook egress sanitizer under the real requests stack driven by the real HTTPAction / MistralHTTPAction / WebhookPublisher must never see a connect to a denied address nor a client call for a refused URL.",
          "runtime monitoring: sys.addaudithook egress sanitizer (socket.connect / getaddrinfo) under the real HTTP client + ground-truth-by-construction oracle on validate_url"),
+ 'C20': ('fault_enumeration',
+         "Held on the fault sequences enumerated: silent / answered / asynchronous actions in forked workflows, heartbeats for subsets, real handle_expired_actions passes with the virtual clock at threshold-1 / threshold / threshold+1 / far beyond (after the last heartbeat or the first-heartbeat grace) in every order relative to late genuine results, settings incl. disabled; oracle: age >= threshold+1 must be failed with the heartbeat error, age <= threshold-1 must not, asynchronous / fresh / finished never, task and workflow follow their error handling, late results change no row; a stuck task manufactured by losing exactly one hand-off (with-items completion job, child->parent result) is completed exactly once by the engine's own integrity job so that the run equals the loss-free run, nothing scheduled with a negative delay.",
+         "runtime monitoring: expiry-predicate monitor over action rows before/after each real checker pass on the virtual clock + metamorphic equality with the loss-free run after single hand-off loss"),
 }
 NOTES = {'C15': "Trusted base: fixtures created through services / DB API, identity from context / headers (authentication stubbed). Heartbeat reports and the engine-internal compare-and-swap functions are not tenant-facing and are excluded (see the evidence assumptions).",
          'C16': "Trusted base: authentication stubbed (identity from X-Project-Id / X-Roles headers), engine replaced by a recording stub answering from the database, request templates written by hand and cross-checked against the walked controller tree.",
